@@ -63,7 +63,7 @@ func Guard(f func()) (msg string, panicked bool) {
 	defer func() {
 		if r := recover(); r != nil {
 			st := string(debug.Stack())
-			inlib := strings.Contains(st, "welllog/golib")
+			inlib := InLib(st)
 			msg = fmt.Sprint(r)
 			if !inlib {
 				msg = "HARNESS: " + msg + "\n" + st
